@@ -92,7 +92,7 @@ impl Deserializable for WDigest {
 }
 fn wide_post(mode: u8, w: u64) -> u64 {
     match mode {
-        0 | 4 => w,
+        0 | 4 | 5 => w,
         1 => if w & 3 == 3 { w | 0xFFFF_FFFF_0000_0000 } else { w },
         2 => if w & 7 == 7 { u64::MAX } else { w },
         _ => if w & 1023 == 0 { w } else { u64::MAX },
@@ -124,6 +124,29 @@ impl<B: StarkField, const MODE: u8> Hasher for WideToy<B, MODE> {
         // draw sits right at the 1000-try limit
         if MODE == 4 && value < 998 + seed.0[0] % 5 {
             return WDigest([u64::MAX; 4]);
+        }
+        // mode 5: crafted candidates for value 1 and 2 (see gap_digest in coq/Model/Coin.v): coefficient slots hold
+        // 16*value + 5 + slot, except that for value 1 the slot (seed.word0 / 3) % 3 holds M, M+1 or 2^MODULUS_BITS - 1
+        if MODE == 5 && (1..=2).contains(&value) {
+            let mb = B::get_modulus_le_bytes();
+            let mut m16 = [0u8; 16];
+            m16[..mb.len()].copy_from_slice(&mb);
+            let m = u128::from_le_bytes(m16);
+            let eb = B::ELEMENT_BYTES;
+            let top = if B::MODULUS_BITS == 128 { u128::MAX } else { (1u128 << B::MODULUS_BITS) - 1 };
+            let w0 = seed.0[0];
+            let g = match w0 % 3 { 0 => m, 1 => m + 1, _ => top };
+            let pos = ((w0 / 3) % 3) as usize;
+            let mut bytes = [0u8; 32];
+            for j in 0..32 / eb {
+                let x: u128 = if value == 1 && j == pos { g } else { 16 * value as u128 + 5 + j as u128 };
+                bytes[j * eb..(j + 1) * eb].copy_from_slice(&x.to_le_bytes()[..eb]);
+            }
+            let mut w = [0u64; 4];
+            for i in 0..4 {
+                w[i] = u64::from_le_bytes(bytes[8 * i..8 * i + 8].try_into().unwrap());
+            }
+            return WDigest(w);
         }
         let mut b = Vec::with_capacity(40);
         b.extend_from_slice(&seed.bytes());
@@ -220,6 +243,7 @@ fn run_case(hasher: &str, field: &str, seed: &[u128], ops: &[Op]) -> String {
         "w1" => run_corr::<$b, WideToy<$b, 1>>(seed, ops),
         "w2" => run_corr::<$b, WideToy<$b, 2>>(seed, ops),
         "w4" => run_corr::<$b, WideToy<$b, 4>>(seed, ops),
+        "w5" => run_corr::<$b, WideToy<$b, 5>>(seed, ops),
         _ => run_corr::<$b, WideToy<$b, 3>>(seed, ops),
     } } }
     match field {
@@ -340,6 +364,14 @@ fn boundary_cases() -> Vec<(String, String, Vec<u128>, Vec<Op>)> {
         let d = 1 + (t % 3) as u8;
         push("w4", vec![Op::Draw(d), Op::Lz(1), Op::Draw(1), Op::Draw(d), Op::Reseed(vec![t, 6, 7, 8]), Op::Draw(1), Op::Ints(3, 8, 5), Op::Draw(d)], (t % 7) as usize, &mut v);
     }
+    // w5: the first candidate after new / every reseed has M, M+1 or 2^bits-1 (the gap [M, 2^MODULUS_BITS)) in coefficient
+    // slot 0, 1 or 2 (selected by the seed), the second candidate is admissible: 18 seeds x base/quadratic/cubic draws
+    for t in 0..54u64 {
+        let d = 1 + (t % 3) as u8;
+        push("w5", vec![Op::Draw(d), Op::Draw(d), Op::Reseed(vec![t, 1, 2, 3]), Op::Draw(1), Op::Reseed(vec![t + 9, t, 2, 3]), Op::Draw(d), Op::Lz(1),
+                        Op::Reseed(vec![3 * t, 0, 0, 0]), Op::Draw(2), Op::Reseed(vec![7 * t + 1, 0, 0, 0]), Op::Draw(3), Op::Ints(2, 4, t), Op::Draw(d)],
+             (t % 11) as usize, &mut v);
+    }
     // nonce search
     for gf in 0..=8u32 {
         push("toy", vec![Op::Grind(gf, 600), Op::Draw(1), Op::Reseed(vec![gf as u64; 4]), Op::Grind(gf, 600)], 2, &mut v);
@@ -355,7 +387,7 @@ fn corr(seed: u64, n: usize) {
     let mut heavy_left = (n / 100).max(2);
     while cases.len() < nb + n {
         let f = ["f64", "f62", "f128"][r.below(3) as usize];
-        let mut h = ["toy", "toy", "toy", "toy", "w0", "w0", "w1", "w4", "w2", "w3"][r.below(10) as usize];
+        let mut h = ["toy", "toy", "toy", "toy", "w0", "w5", "w1", "w4", "w2", "w3"][r.below(10) as usize];
         if h == "w3" {
             if heavy_left == 0 { h = "w1"; } else { heavy_left -= 1; }
         }
@@ -732,11 +764,48 @@ fn nonce_boundary(r: &mut Rng, rep: &mut Report) {
     nonce_boundary_h::<f64::BaseElement, RpJive64_256>("RpJive64_256", r, rep);
 }
 
+/// Gap candidates against the reference coin: the real hashers put a candidate into [M, 2^MODULUS_BITS) about once per
+/// 76,000 f62 draws (2^-32 for f64, ~2^-82 for f128), so the reference comparison is also run on WideToy<B, 5>, whose
+/// first candidate after every reseed has M, M+1 or 2^bits-1 in one coefficient slot.  Oracle: `shadow` (plain integer
+/// comparison with the modulus) and the canonical-form checks; no model involved.
+fn gap_reference_h<B: Fld>(r: &mut Rng, n: usize, rep: &mut Report) {
+    type H<B> = WideToy<B, 5>;
+    let max_deg = if B::HAS_CUBIC { 3 } else { 2 };
+    for _ in 0..n {
+        let len = 1 + r.below(4) as usize;
+        let seed = gen_seed(r, B::M, len);
+        let mut ops: Vec<FOp<WDigest>> = Vec::new();
+        for _ in 0..1 + r.below(4) {
+            ops.push(FOp::Draw(1 + r.below(max_deg) as u8));
+            ops.push(FOp::Draw(1));
+            ops.push(FOp::Reseed(<H<B> as Hasher>::hash(&r.bytes(4))));
+        }
+        ops.push(FOp::Draw(1 + r.below(max_deg) as u8));
+        let mut problems = Vec::new();
+        let a = exec::<B, H<B>>(&seed, &ops, &mut problems);
+        let s = shadow::<B, H<B>>(&seed, &ops);
+        rep.evals += ops.len() as u64;
+        for p in problems {
+            rep.fail("drawn element is not a valid canonical field element", hist_str::<B, WDigest>("WideToy5", &seed, &ops), "as_int < MODULUS, read_from_bytes(to_bytes(e)) == e".into(), p);
+        }
+        for (i, (x, y)) in a.iter().zip(s.iter()).enumerate() {
+            if x != y {
+                rep.fail("draw differs from the first valid counter-mode output hash(seed || counter) (candidate in the gap [M, 2^bits))",
+                         hist_str::<B, WDigest>("WideToy5", &seed, &ops[..=i]), format!("{:x?}", y), format!("{:x?}", x));
+            }
+        }
+    }
+}
+
 fn falsify(seed: u64, n: usize) {
     let mut r = Rng::new(seed ^ 0xFA15_C19);
     let mut rep = Report { evals: 0, fails: 0 };
     // boundary stream first: nonces 0, 1, p-1, p, p+1 (p = f64 and k*f62 moduli), 2^32, 2^62, 2^63, u64::MAX, all pairs
     nonce_boundary(&mut r, &mut rep);
+    let ngap = (n / 10).clamp(40, 2000);
+    gap_reference_h::<f64::BaseElement>(&mut r, ngap, &mut rep);
+    gap_reference_h::<f62::BaseElement>(&mut r, ngap, &mut rep);
+    gap_reference_h::<f128::BaseElement>(&mut r, ngap, &mut rep);
     let per = (n / 12).max(1);
     falsify_h::<f64::BaseElement, Blake3_192<f64::BaseElement>>("Blake3_192", &mut r, per, &mut rep);
     falsify_h::<f62::BaseElement, Blake3_192<f62::BaseElement>>("Blake3_192", &mut r, per, &mut rep);
